@@ -48,7 +48,7 @@ pub fn run(args: &Args) -> i32 {
     let enc = TextEncoding::UnicodeCodePoint;
     let max_perm = if args.thorough() { 6 } else { 4 };
     let mut models = vec![];
-    for (theme, bname, edits, merges) in super::history_configs(if args.thorough() { 2 } else { 1 }) {
+    for (theme, bname, edits, merges) in super::history_configs(if args.thorough() { 2 } else { 0 }) {
         let mut h = History::new(theme, bname, enc, &edits, merges);
         let b = base(bname, enc);
         let base_hashes: BTreeSet<ChangeHash> = b.get_changes(&[]).iter().map(|c| c.hash()).collect();
